@@ -10,10 +10,11 @@
    The per-section theorems (domains / variables / constraints / agents) are kept as separate
    obligations, and [yaml_roundtrip_files] extends the result to a document split into several
    files with its top-level sections in any order.
-   NOT in the model (rests on the correspondence run only): PyYAML's text layer, evaluation of
-   expression constraints (Python eval); invariance under PyYAML's key sorting is proved for the
-   routes mapping and the constraint "values" mapping (both proofs are order independent), the
-   other mappings are loaded entry by entry by an order-preserving map. *)
+   [yaml_roundtrip_any_key_order] / [yaml_roundtrip_pipeline] state the same for ANY re-ordering of
+   the keys of every mapping of the written tree (yaml.dump sorts keys).
+   NOT in the model (rests on the correspondence run only): PyYAML's text layer (that
+   yaml.load (yaml.dump t) is a key re-ordering of t is checked per case), evaluation of expression
+   constraints (Python eval). *)
 From PyDcop Require Import Base M_AgentDef M_Yaml P_Yaml P_Yaml2.
 
 (* Loading several files = loading the concatenation of their sections (a later section with
@@ -153,6 +154,51 @@ Theorem yaml_roundtrip_files : forall d, wf d ->
     forall files, Permutation.Permutation (List.concat files) (sections_of t) ->
                   load_files files = Ok l.
 Proof. exact yaml_roundtrip_files_l. Qed.
+
+(* ---------------------------------------------------------------------------------------- *)
+(* yaml.dump sorts the keys of every mapping: what is read is a key re-ordering of what was   *)
+(* written.  tperm t t' = t' is t with the entries of every mapping (domains, variables,      *)
+(* constraints and each constraint's "values", agents, routes and each agent's table,         *)
+(* hosting_costs and each agent's "computations") in ANY other order.                          *)
+(* ---------------------------------------------------------------------------------------- *)
+
+(* the "values" mapping of a table constraint may be read in any order *)
+Theorem extensional_values_order_independent : forall dims table dflt vals vals',
+  ext_wf dims table -> ext_values dims table = Ok vals -> Permutation.Permutation vals vals' ->
+  exists m, foldM (ext_load_one dims) vals' (assignment_matrix dims dflt) = Ok m /\
+    map fst m = all_tuples (shape_of dims) /\
+    forall t, In t (all_tuples (shape_of dims)) ->
+              lookup tuple_eqb t m = option_map Some (lookup tuple_eqb t table).
+Proof. exact ext_values_order_independent_l. Qed.
+
+(* agents, with the three mappings (and the inner route / computations tables) re-ordered *)
+Theorem agents_roundtrip_any_key_order : forall ags ags1 t',
+  agents_wf ags -> Permutation.Permutation ags ags1 ->
+  agents_list t' = map aentry ags1 ->
+  assoc_perm yroute_perm (yaml_agents_routes ags) (olist (y_routes t')) ->
+  assoc_perm yhost_perm (yaml_agents_hosting ags) (olist (y_hosting t')) ->
+  exists las, build_agents t' = Ok las /\ Forall2 agent_rel ags1 las.
+Proof. exact agents_load_perm_l. Qed.
+
+(* THE PROPERTY, robust to the YAML layer's key order: loading ANY key re-ordering of the
+   written tree succeeds and yields a DCOP equivalent to the original up to the iteration order
+   of its four dicts (dperm) *)
+Theorem yaml_roundtrip_any_key_order : forall d t t',
+  wf d -> to_tree d = Ok t -> tperm t t' ->
+  exists d' l, dperm d d' /\ of_tree t' = Ok l /\ equiv d' l.
+Proof. exact yaml_roundtrip_any_key_order_l. Qed.
+
+(* the whole pipeline: write, re-order keys, distribute the sections over files, load *)
+Theorem yaml_roundtrip_pipeline : forall d t t' files,
+  wf d -> to_tree d = Ok t -> tperm t t' ->
+  Permutation.Permutation (List.concat files) (sections_of t') ->
+  exists d' l, dperm d d' /\ load_files files = Ok l /\ equiv d' l.
+Proof. exact yaml_roundtrip_pipeline_l. Qed.
+
+(* tperm is not vacuous: the tree of ex_dcop and a genuinely different key re-ordering of it
+   (all mappings permuted, incl. the "values" of c1 and the position of routes.default) *)
+Example tperm_nonvacuous : exists t t', to_tree ex_dcop = Ok t /\ tperm t t' /\ t <> t'.
+Proof. exact tperm_nonvacuous_l. Qed.
 
 (* two conjuncts of wf are necessary.  (1) one default route for all agents: *)
 Theorem default_route_guard_refuted : exists d t l,
